@@ -76,6 +76,14 @@ def solve_job_shop(
                 raise ValueError(f"Job {j} operation {op_idx} has negative duration")
             n_machines = max(n_machines, machine + 1)
 
+    # Machine indices are labels: renumber the machines actually used to 0..k-1 (order preserving), so that the
+    # per-machine tables are sized by the number of machines, not by the largest label
+    used = sorted({machine for job in jobs for machine, _ in job})
+    if len(used) != n_machines:
+        dense = {machine: i for i, machine in enumerate(used)}
+        jobs = [[(dense[machine], duration) for machine, duration in job] for job in jobs]
+        n_machines = len(used)
+
     rng = Random(seed)
     evals = 0
 
